@@ -1,5 +1,5 @@
 (* C10  OpenFOAM output keeps content, drops private keys, carries the Foam header. *)
-
+From Coq Require Import String.   (* string literals of the examples; imported first so the list names win *)
 From Coq Require Import NArith ZArith List Bool.
 From DictIO Require Import Chars Str Value Scalar KeyPath SDict Layout Lexer TokParser TreeSpec NativeSpec QuoteProofs.
 Import ListNotations.
@@ -9,16 +9,54 @@ Theorem C10_no_underscore_keys : forall t, has_us_key (strip_us t) = false.
 Proof. exact strip_us_removes_all. Qed.
 Print Assumptions C10_no_underscore_keys.
 
+(* (no hypotheses) an instance in which strip_us has work to do at three levels, also inside a list *)
+Example C10_no_underscore_keys_example :
+  let t := Dict [(KS (of_string "_top"), Leaf (SInt 1)); (KS (of_string "keep"), Dict [(KS (of_string "_in"), Leaf (SInt 2)); (KS (of_string "a_b"), Leaf (SInt 3))]);
+                 (KS (of_string "l"), Lst [Dict [(KS (of_string "_x"), Leaf SNone); (KI 5, Leaf SNone)]])] in
+  has_us_key t = true /\
+  strip_us t = Dict [(KS (of_string "keep"), Dict [(KS (of_string "a_b"), Leaf (SInt 3))]); (KS (of_string "l"), Lst [Dict [(KI 5, Leaf SNone)]])] /\
+  has_us_key (strip_us t) = false.
+Proof. intros t. refine (conj _ (conj _ (C10_no_underscore_keys t))); vm_compute; reflexivity. Qed.
+
 Theorem C10_strip_keeps_rest : forall t, has_us_key t = false -> strip_us t = t.
 Proof. exact strip_us_identity. Qed.
 Print Assumptions C10_strip_keeps_rest.
 
+Example C10_strip_keeps_rest_nonvacuous :
+  let t := Dict [(KS (of_string "keep"), Dict [(KS (of_string "a_b"), Leaf (SInt 3)); (KI (-1), Lst [Leaf (SStr (of_string "_v"))])]);
+                 (KS (of_string "l"), Lst [Dict [(KS (of_string "x_"), Leaf SNone)]; Lst []])] in
+  has_us_key t = false /\ strip_us t = t.
+Proof. intros t. assert (H : has_us_key t = false) by (vm_compute; reflexivity). exact (conj H (C10_strip_keeps_rest t H)). Qed.
+
 Theorem C10_no_single_quote : forall s, has_char c_sq s = false -> has_char c_sq (foam_format_string s) = false.
 Proof. exact foam_no_single_quote. Qed.
 Print Assumptions C10_no_single_quote.
+
+(* non-vacuity: a string the native writer would wrap in single quotes (it has a double quote and blanks) *)
+Example C10_no_single_quote_nonvacuous :
+  let s := of_string "say ""hi"" now" in
+  has_char c_sq s = false /\ format_string s = sq s /\ foam_format_string s = of_string """say \""hi\"" now""" /\
+  has_char c_sq (foam_format_string s) = false.
+Proof.
+  intros s. assert (H : has_char c_sq s = false) by (vm_compute; reflexivity).
+  refine (conj H (conj _ (conj _ (C10_no_single_quote s H)))); vm_compute; reflexivity.
+Qed.
 
 Theorem C10_foam_choice : forall s, has_char c_dollar s = false -> has_char c_dq s = false ->
   (foam_format_string s = dq s) \/
   (foam_format_string s = s /\ nonempty s = true /\ forallb (fun c => negb (is_struct_char c || is_quote c)) s = true).
 Proof. exact foam_format_choice. Qed.
 Print Assumptions C10_foam_choice.
+
+Example C10_foam_choice_nonvacuous :
+  let a := of_string "it's (a) list" in let b := of_string "uniform" in
+  (has_char c_dollar a = false /\ has_char c_dq a = false /\ foam_format_string a = dq a) /\
+  (has_char c_dollar b = false /\ has_char c_dq b = false /\ foam_format_string b = b) /\
+  ((foam_format_string a = dq a) \/
+   (foam_format_string a = a /\ nonempty a = true /\ forallb (fun c => negb (is_struct_char c || is_quote c)) a = true)).
+Proof.
+  intros a b.
+  assert (H1 : has_char c_dollar a = false) by (vm_compute; reflexivity).
+  assert (H2 : has_char c_dq a = false) by (vm_compute; reflexivity).
+  refine (conj (conj H1 (conj H2 _)) (conj _ (C10_foam_choice a H1 H2))); vm_compute; repeat split; reflexivity.
+Qed.
